@@ -169,6 +169,16 @@ class Select(Contract):
     def havoc(self, a):
         return _select(a.arrays, a.index)
 
+    def samples(self, rng, nrng, tier):
+        # gridded (2-D) inputs: the bounded stage also evaluates them in Fortran / mixed memory order
+        for _ in range(10 if tier == "thorough" else 4):
+            shape = (rng.randint(2, 5), rng.randint(2, 6))
+            arrays = tuple(nrng.uniform(-5, 5, shape) for _ in range(rng.randint(2, 3)))
+            index = nrng.permutation(shape[0] * shape[1])[: rng.randint(1, shape[0] * shape[1])]
+            yield (arrays, index), {}
+        yield ((nrng.uniform(-1, 1, 7), nrng.uniform(-1, 1, 7)), np.array([6, 0, 3])), {}
+        yield (None, np.array([0])), {}
+
     def ensures(self, a, r):
         if a.arrays is None or any(i is None for i in a.arrays):
             return {"none_passes_through": r is a.arrays}
